@@ -239,10 +239,12 @@ func specDefaultKnown(t parser.ValueType) bool {
 //@ func (*transpiler).evaluateAppCall
 //@   loop @"for nextCall != nil" invariant[C18] no-converter-call-yet: calls(AppCall) == 0 && forall(k, 0, calls(evaluateExpression), arg(evaluateExpression, k, 2))
 //@   loop @"range nextCall.Args()" invariant[C18] no-converter-call-yet: calls(AppCall) == 0 && forall(k, 0, calls(evaluateExpression), arg(evaluateExpression, k, 2))
+//@   loop @"for nextCall != nil" invariant[C18] first-command-is-the-call-itself: (len(convertedCalls) == 0 ==> nextCall != nil && nextCall.Name() == call.Name()) && (len(convertedCalls) > 0 ==> convertedCalls[0].name == call.Name())
 //@   loop @"range nextCall.Args()" invariant[C18] one-word-per-argument: len(args) == rangeindex + 1
 //@   loop @"range nextCall.Args()" invariant[C18,C04] word-k-is-the-value-of-argument-k: rangeindex >= 0 ==> calls(evaluateExpression) >= 1 && arg(evaluateExpression, calls(evaluateExpression) - 1, 1) == nextCall.Args()[rangeindex] && args[rangeindex] == res(evaluateExpression, calls(evaluateExpression) - 1, 0).firstValue()
 //@   loop @"range nextCall.Args()" exit[C18] as-many-words-as-arguments: len(args) == len(nextCall.Args())
 //@   ensures[C04,C18] every-argument-value-is-used: forall(k, 0, calls(evaluateExpression), arg(evaluateExpression, k, 2))
+//@   ensures[C18] first-command-handed-over-is-the-call: err == nil ==> len(arg(AppCall, 0, 0)) >= 1 && arg(AppCall, 0, 0)[0].name == call.Name()
 //@   ensures[C18] one-converter-call: err == nil ==> calls(AppCall) == 1 && arg(AppCall, 0, 1) == valueUsed && len(result0.values) == len(res(AppCall, 0, 0))
 //
 //@ func (*transpiler).evaluateProgram
